@@ -41,8 +41,22 @@ def natArg (a : List (String × String)) (k : String) : Option Nat := (arg a k).
 def stateReply (t : TS) : String :=
   "digest=" ++ digest t ++ " inv=" ++ (match t.inv with | none => "ok" | some c => "FAIL:" ++ c)
 
+/-- state builder for the high-water-mark differential (`ia hwm`): insert entries with ARBITRARY sequence numbers
+    into the active memtable (concurrent writers may insert out of counter order; `TreeState.write` models the
+    in-order protocol P1 only). The `c18_*_is_max` theorems hold for every `TreeState`, so also for these. -/
+def rawWrite (t : TS) (es : List E) : Option TS :=
+  match t.latest? with
+  | none => none
+  | some sv =>
+    let top := es.foldl (fun acc e => max acc (e.seqno + 1)) t.seqCtr
+    some { t with
+      mems := t.mems.map (fun m => if m.id == sv.active then { m with entries := es.foldl (fun acc e => memInsert e acc) m.entries } else m),
+      seqCtr := top, visible := max t.visible top }
+
 /-- apply a state-changing request; `none` = the model rejects it (precondition / protocol violated) -/
 def stepTree (t : TS) (cmd : String) (a : List (String × String)) : Option TS := do
+  if cmd == "rawwrite" then
+    return ← ((arg a "es").bind parseEntries).bind (rawWrite t)
   let op : Op BK ← (match cmd with
     | "write" => (arg a "es").bind parseEntries |>.map Op.write
     | "rotate" => (natArg a "mem").map Op.rotate
